@@ -79,3 +79,52 @@ func HarnessC13GrpcScenarioCalls() {
 	vObserve("len", int64(len(want)))
 	vReach("end")
 }
+
+// gRPC twin of HarnessC13ScenarioWeights.
+func HarnessC13GrpcScenarioWeights() {
+	n := int(vConcretize(vNondetInt("n", 1, 3)))
+	hi := int64(6)
+	if vThorough() {
+		hi = 12
+	}
+	cfg := &config.AmmoConfig{Calls: []config.CallConfig{{Name: "a", Call: "svc.A"}}}
+	neg := false
+	ws := make([]int64, n)
+	for i := 0; i < n; i++ {
+		ws[i] = vConcretize(vNondetInt("w", -hi, hi))
+		if ws[i] < 0 {
+			neg = true
+		}
+		cfg.Scenarios = append(cfg.Scenarios, config.ScenarioConfig{Name: string(rune('p' + i)), Weight: ws[i], Requests: []string{"a"}})
+	}
+	res, err := decodeAmmo(cfg, nil) // implicit: never panics
+	if neg {
+		vCheck("M5.negative.weight.rejected", err != nil)
+		vReach("neg")
+		return
+	}
+	vCheck("M5.valid.weights.accepted", err == nil)
+	if err != nil {
+		return
+	}
+	cnt := map[string]int64{}
+	for _, s := range res {
+		cnt[s.Name]++
+	}
+	for i := 0; i < n; i++ {
+		w := ws[i]
+		if w == 0 || n == 1 {
+			w = 1
+		}
+		vCheck("M5.every.scenario.present", cnt[string(rune('p'+i))] >= 1)
+		for j := 0; j < n; j++ {
+			wj := ws[j]
+			if wj == 0 || n == 1 {
+				wj = 1
+			}
+			vCheck("M5.proportional", cnt[string(rune('p'+i))]*wj == cnt[string(rune('p'+j))]*w)
+		}
+	}
+	vObserve("len", int64(len(res)))
+	vReach("end")
+}
